@@ -606,6 +606,15 @@ class FakeSession:
             if ctype.startswith("application/merge-patch+json"):
                 if not isinstance(payload, dict):
                     return FakeResponse(400, _status(400, "BadRequest", "merge patch must be an object"))
+                # optimistic concurrency, as the real API server does it: a merge-patch whose body names a
+                # `metadata.resourceVersion` other than the stored one is refused with 409 Conflict, nothing applied
+                # (kopf: only peering.clean() sends one, since 054d47d)
+                _pm = payload.get("metadata")
+                _prv = _pm.get("resourceVersion") if isinstance(_pm, dict) else None
+                if _prv is not None and str(_prv) != str(cur["metadata"].get("resourceVersion")):
+                    req["precondition_failed"] = True
+                    return FakeResponse(409, _status(409, "Conflict", "the object has been modified; please apply "
+                                                     "your changes to the latest version and try again"))
                 new = rfc.merge_patch(cur, payload)
             elif ctype.startswith("application/json-patch+json"):
                 try:
